@@ -120,7 +120,7 @@ def _pair_ok(p):
 
 
 # `anchors` as a set OBJECT (contracts/c06sets.py): `set()` creates it, `update(<generator>)` is the union with the generator's image set
-GCP_COMMON = dict(props=["C18"], params={"glyphs": ITEMS}, returns=PAIRS, merge_branches=False, modifies=[NAMESET + ".elems"])
+GCP_COMMON = dict(props=["C18"], params={"glyphs": ITEMS}, returns=PAIRS, merge_branches=False, modifies=[NAMESET + ".elems"], dict_key_positions=False)
 
 
 # sorted() of a list of pairs of str: Python compares tuples lexicographically; the facts used here: same length, same elements, and the FIRST
@@ -144,8 +144,11 @@ def _sorted_pairs(ex, st, args, kwargs, node):
     k, j, k2 = z3.Int(fresh_name("sk")), z3.Int(fresh_name("sj")), z3.Int(fresh_name("sk2"))
     first = PAIRS.elem.sort().accessor(0, 0)
     st.assume(z3.Length(r) == z3.Length(s))
-    st.assume(z3.ForAll([k], z3.Implies(z3.And(0 <= k, k < z3.Length(r)), z3.Exists([j], z3.And(0 <= j, j < z3.Length(s), r[k] == s[j])))))
-    st.assume(z3.ForAll([j], z3.Implies(z3.And(0 <= j, j < z3.Length(s)), z3.Exists([k], z3.And(0 <= k, k < z3.Length(r), r[k] == s[j])))))
+    # (the permutation and its inverse as functions: position k of the result holds element sigma(k) of the argument, and back)
+    sigma = z3.Function(fresh_name("sigma"), z3.IntSort(), z3.IntSort())
+    tau = z3.Function(fresh_name("tau"), z3.IntSort(), z3.IntSort())
+    st.assume(z3.ForAll([k], z3.Implies(z3.And(0 <= k, k < z3.Length(r)), z3.And(0 <= sigma(k), sigma(k) < z3.Length(s), r[k] == s[sigma(k)]))))
+    st.assume(z3.ForAll([j], z3.Implies(z3.And(0 <= j, j < z3.Length(s)), z3.And(0 <= tau(j), tau(j) < z3.Length(r), r[tau(j)] == s[j]))))
     st.assume(z3.ForAll([k, k2], z3.Implies(z3.And(0 <= k, k < k2, k2 < z3.Length(r)), first(r[k]) <= first(r[k2]))))
     x = z3.Const(fresh_name("sx"), PAIRS.elem.sort())
     st.assume(z3.ForAll([x], z3.Contains(r, z3.Unit(x)) == z3.Contains(s, z3.Unit(x))))  # `p in sorted(xs)` iff `p in xs`
@@ -372,7 +375,7 @@ def _entry(k, v, g):
             f" and implies({v}[1] is not None, {_coords(v + '[1]', g, 'exit')}))")
 
 
-_ORDER = "all(all(implies(p1 < p2, src[p1] < src[p2]) for p2 in range(len(src))) for p1 in range(len(src)))"
+_ORDER = "all(src[p1] < src[p1 + 1] for p1 in range(len(src) - 1))"  # strictly increasing (adjacent positions)
 _V = f"cursiveAnchors[{_KS}[p]]"
 MCS_REGISTERED = True  # (engine request C18-13, done: references inside tuple-typed call results are allocated)
 MCS_COMMON = dict(
@@ -399,7 +402,8 @@ MCS_COMMON = dict(
 # shared by the variants: one dict entry per recorded glyph, keyed by a GlyphName node of ITS name (the keys are distinct objects)
 _INV1 = {
     "len": f"len(src) == len(cursiveAnchors) and len(cursiveAnchors) == len({_KS})",
-    "order": _ORDER + " and all(0 <= src[p] and src[p] < i for p in range(len(src)))",
+    "bound": "all(0 <= src[p] and src[p] < i for p in range(len(src)))",
+    "order": _ORDER,
     "keys": f"all(allocated({_KS}[p]) and allocated({_V}[0]) and allocated({_V}[1]) and {_KS}[p].kind == 'GlyphName' and {_KS}[p].glyph == glyphs[src[p]].name"
     f" and ({_V}[0] is None or {_V}[0].kind == 'Anchor') and ({_V}[1] is None or {_V}[1].kind == 'Anchor') for p in range(len({_KS})))",
 }
@@ -424,26 +428,29 @@ contract(
     ensures={
         "records-in-glyph-order": "len(src) == len(result) and " + _ORDER + " and all(0 <= src[k] and src[k] < len(glyphs) for k in range(len(result)))",
         "record-of-its-glyph": _SHAPE,
-        # a side is NULL iff the glyph has no anchor of that name (own, or by fall-back the font's); a record has at least one side
-        "null-sides": "all(" + _null_iff("result[k].entryAnchor", "result[k].exitAnchor", "glyphs[src[k]]") + " for k in range(len(result)))",
+        "at-least-one-side": "all(result[k].entryAnchor is not None or result[k].exitAnchor is not None for k in range(len(result)))",
         "every-glyph-with-an-anchor": "all(implies(" + _present("glyphs[a]", "entry") + " or " + _present("glyphs[a]", "exit") + ", any(src[k] == a for k in range(len(src)))) for a in range(len(glyphs)))",
     },
     canaries={"never-empty": "len(result) > 0", "entry-always": "all(result[k].entryAnchor is not None for k in range(len(result)))"},
     loops={
         MCS_LOOP1: Loop(index="i", invariants={
             **_INV1,
-            "null-sides": "all(" + _null_iff(_V + "[0]", _V + "[1]", "glyphs[src[p]]") + f" for p in range(len({_KS})))",
+            "one-side": f"all({_V}[0] is not None or {_V}[1] is not None for p in range(len({_KS})))",
             "complete": "all(implies(" + _present("glyphs[a]", "entry") + " or " + _present("glyphs[a]", "exit") + ", any(src[p] == a for p in range(len(src)))) for a in range(i))",
         }),
         MCS_LOOP2: Loop(index="t", seq="KK", invariants={**_INV2, "len1": _INV1["len"]}),
     },
 )
 
+# WORK IN PROGRESS (not registered): the coordinate clauses of the records.  Every obligation but one is discharged; the invariant step on the
+# inserting path needs the solver to identify the nested-quantifier body of the invariant at the new position with the same body in a hint
+# (alpha-equal sub-formulas are different ASTs, notes/C06.requests.md R16) and times out.  What the two sides of a record ARE is proved for
+# `_getAnchors`; that a record carries exactly the nodes `_getAnchors` returned for its glyph is the registered #records variant.
 for _k, _nm in ((0, "entry"), (1, "exit")):
     contract(
         MCS,
         name=_nm,
-        **{k: v for k, v in MCS_COMMON.items() if k != "hints"},
+        **{**{k: v for k, v in MCS_COMMON.items() if k != "hints"}, "props": []},
         ensures={
             "record-of-its-glyph": "len(src) == len(result) and all(0 <= src[k] and src[k] < len(glyphs) for k in range(len(result))) and " + _SHAPE,
             f"{_nm}-anchor-at-rounded-coordinates": f"all(implies(result[k].{_nm}Anchor is not None, result[k].{_nm}Anchor.kind == 'Anchor' and " + _coords(f"result[k].{_nm}Anchor", "glyphs[src[k]]", _nm) + ") for k in range(len(result)))",
